@@ -119,6 +119,9 @@ func (x *Exec) loop() {
 				alts[i] = g.ID + "@" + g.label
 			}
 			c = x.choose("sched", ps[0].label, len(ps), alts)
+			if c > 0 {
+				x.delay(ps[:c])
+			}
 		}
 		g := ps[c]
 		x.mu.Lock()
@@ -276,7 +279,7 @@ func Explore(t *testing.T, sc *Scenario, opt Options) *Stats {
 		used := 0
 		for i := 0; i < len(x.Trace); i++ {
 			c := x.Trace[i]
-			if i >= len(prefix) {
+			if i >= len(prefix) && i >= x.MarkIdx {
 				if used+altCost(c) <= opt.Bound {
 					for alt := 1; alt < c.N; alt++ {
 						if top {
@@ -305,7 +308,7 @@ func Explore(t *testing.T, sc *Scenario, opt Options) *Stats {
 		used := 0
 		for i := 0; i < len(x.Trace); i++ {
 			c := x.Trace[i]
-			if used+altCost(c) <= opt.Bound {
+			if i >= x.MarkIdx && used+altCost(c) <= opt.Bound {
 				for alt := 1; alt < c.N; alt++ {
 					seq++
 					if seq%opt.Shards != opt.Shard {
